@@ -224,6 +224,9 @@ def base_files(ctx):
                 Cfg(0, b"", 0, 1, 0), Cfg(2, universe.DELTA_DICT, 0, 0, 1), Cfg(0, universe.DELTA_DICT, 1, 1, 1), Cfg(2, b"", 0, 0, 3)]
         ws = ["abc", "aab", "abb", "dcd", "aaa", "cab"]
         specs = [(ws[i % len(ws)], c) for i, c in enumerate(cfgs)]
+        if ctx.deep:
+            # thorough tier: every word under every configuration, and two four-letter words
+            specs = [(w, c) for c in cfgs for w in ws] + [("abca", cfgs[1]), ("dddd", cfgs[2]), ("abab", cfgs[4])]
     libf = universe.lib_files(specs, seed)
     out = []
     for (w, c), lf in zip(specs, libf):
